@@ -110,8 +110,13 @@ def sgn(v, n):
 # ================================================================================================= templates
 class T:
     """regs(a) -> [(name, size)] (names starting with 'work' must start and end in |0>);  build(a, W) -> operator;
-    domain(a) -> iterable of {reg: int};  f(a, v) -> {reg: int} changed registers;  variant(a) -> branch class."""
+    domain(a) -> iterable of {reg: int};  f(a, v) -> {reg: int} changed registers;  variant(a) -> branch class;
+    classify(a, v) -> class of an *input* (used to keep failure signatures narrow)."""
     fourier = ()
+
+    @staticmethod
+    def classify(a, v):
+        return None
 
 
 def _p2n(a, key="n"):
@@ -274,6 +279,15 @@ class SignedOutMultiplier(T):
     def variant(a):
         return "zeroed" if a["z"] else "not-zeroed"
 
+    @staticmethod
+    def classify(a, v):
+        sx, sy = sgn(v["x"], a["nx"]), sgn(v["y"], a["ny"])
+        if abs(sx) * abs(sy) >= 2 ** (a["no"] - 1):
+            return "magnitude-overflow"
+        if sx * sy == 0 and ((sx < 0) != (sy < 0)):
+            return "zero-times-negative"
+        return "regular"
+
 
 class ModExp(T):
     @staticmethod
@@ -364,7 +378,8 @@ class OutPoly(T):
 
     @staticmethod
     def variant(a):
-        return _p2n(a, "no")
+        fn, nvar = POLY[a["poly"]]
+        return _p2n(a, "no") + (",const-term" if fn(*([0] * nvar)) % a["mod"] else "")
 
 
 class IntegerComparator(T):
@@ -554,9 +569,9 @@ def instances(tier):
                     lays = ALL if k in (ks[-3], 1) and (n <= 2 or thorough) else SEQ
                     add("Multiplier", {"n": n, "k": k, "mod": mod, "ww": ww}, lays)
     # --- OutMultiplier
-    sizes = [(1, 1, 1), (1, 1, 2), (2, 1, 2), (1, 2, 2), (2, 2, 2), (2, 2, 3), (2, 2, 1)]
+    sizes = [(1, 1, 1), (1, 1, 2), (2, 1, 2), (1, 2, 2), (2, 2, 2), (2, 2, 1)]
     if thorough:
-        sizes += [(3, 2, 3), (2, 3, 3), (3, 3, 3), (2, 2, 4), (1, 3, 2), (3, 1, 3)]
+        sizes += [(2, 2, 3), (3, 2, 3), (2, 3, 3), (3, 3, 3), (1, 3, 2), (3, 1, 3)]
     for nx, ny, no in sizes:
         for mod in range(1, 2 ** no + 1):
             for z in (0, 1):
@@ -573,7 +588,7 @@ def instances(tier):
         sizes += [(3, 2, 3), (3, 2, 4), (3, 3, 3), (2, 3, 5)]
     for nx, ny, no in sizes:
         for z in (1, 0):
-            wws = [2, no + 2] if z else [2 * no + 1, 2 * no + 2]
+            wws = [2, no + 2] if z else ([2 * no + 1, 2 * no + 2] if thorough else [2 * no + 1])
             if not z and no > (3 if thorough else 2):
                 continue
             for ww in wws:
@@ -587,16 +602,16 @@ def instances(tier):
                     lays = ALL if (base == mod - 1 and nx == 2 and no == 2) else SEQ
                     add("ModExp", {"nx": nx, "no": no, "base": base, "mod": mod, "ww": ww}, lays)
     # --- OutSquare / SignedOutSquare
-    NX, NO = (3, 5) if thorough else (3, 4)
+    NX, NO = (3, 5) if thorough else (2, 3)
     for nx in range(1, NX + 1):
         for no in range(1, NO + 1):
             for z in (0, 1):
                 wmin = min(nx + 1, no) if z else no
                 for ww in (wmin, wmin + 1, wmin + 2):
-                    add("OutSquare", {"nx": nx, "no": no, "ww": ww, "z": z}, ALL if (nx, no) in ((2, 3), (2, 4)) else SEQ)
+                    add("OutSquare", {"nx": nx, "no": no, "ww": ww, "z": z}, ALL if (nx, no) in ((2, 3), (2, 2)) else SEQ)
                 wmin = min(nx, no) if z else no
                 for ww in (wmin, wmin + 1, wmin + 2):
-                    add("SignedOutSquare", {"nx": nx, "no": no, "ww": ww, "z": z}, ALL if (nx, no) in ((2, 3), (2, 4)) else SEQ)
+                    add("SignedOutSquare", {"nx": nx, "no": no, "ww": ww, "z": z}, ALL if (nx, no) in ((2, 3), (2, 2)) else SEQ)
     # --- OutPoly
     for poly, (_, nvar) in POLY.items():
         if nvar == 3 and not thorough:
@@ -686,7 +701,12 @@ def _decode(idx, regs):
     return out
 
 
-def _judge(sig0, Tm, regs, dom, exp_vals, E, O, extra):
+def _classes(Tm, a, dom, idxs):
+    cl = sorted({c for c in (Tm.classify(a, dom[int(i)]) for i in idxs) if c})
+    return ("{" + ",".join(cl) + "}") if cl else ""
+
+
+def _judge(sig0, Tm, a, regs, dom, exp_vals, E, O, extra):
     """Compare observed columns O with expected E (both D x C)."""
     from mc import x_tmpl as X
 
@@ -704,14 +724,21 @@ def _judge(sig0, Tm, regs, dom, exp_vals, E, O, extra):
             kind = "fourier-mismatch"
             obs = {"overlap": [float(amps[c].real), float(amps[c].imag)]}
         else:
+            kinds = set()
+            for cc in badc:
+                cl = O[:, int(cc)]
+                jj = int(np.argmax(np.abs(cl)))
+                ob = _decode(jj, regs)
+                if abs(cl[jj]) ** 2 < 1 - 1e-6:
+                    kinds.add("superposition")
+                elif any(ob[n] != 0 for n, _ in regs if n.startswith("work")) and all(ob[n] == exp_vals[int(cc)][n] for n, _ in regs if not n.startswith("work")):
+                    kinds.add("work-not-restored")
+                else:
+                    kinds.add("wrong-value")
+            kind = "+".join(sorted(kinds))
             obs = _decode(j, regs)
-            if abs(col[j]) ** 2 < 1 - 1e-6:
-                kind = "superposition"
-                obs["weight"] = float(abs(col[j]) ** 2)
-            elif any(obs[n] != 0 for n, _ in regs if n.startswith("work")) and all(obs[n] == exp_vals[c][n] for n, _ in regs if not n.startswith("work")):
-                kind = "work-not-restored"
-            else:
-                kind = "wrong-value"
+            obs["weight"] = float(abs(col[j]) ** 2)
+        kind += _classes(Tm, a, dom, badc)
         return bad(f"{sig0}:{kind}", obs, exp_vals[c], input=dom[c], n_bad_inputs=int(badc.size), n_inputs=len(dom), **extra)
     if np.max(np.abs(amps - amps[0])) > 1e-7:
         c = int(np.argmax(np.abs(amps - amps[0])))
@@ -756,7 +783,7 @@ def check(spec):
         if M.shape != (2 ** n, 2 ** n):
             return bad(f"{sigbase}:shape", list(M.shape), [2 ** n, 2 ** n], **extra)
         O = M @ cols
-        v = _judge(sigbase, Tm, regs, dom, exp_vals, E, O, extra)
+        v = _judge(sigbase, Tm, a, regs, dom, exp_vals, E, O, extra)
         return v or ok(outcome=[t, variant, "matrix", fp], nontrivial=nontrivial)
 
     if route == "device":
@@ -779,11 +806,17 @@ def check(spec):
         want = E @ amp
         ov = np.vdot(want, res)
         if abs(abs(ov) - 1) > 1e-7 or np.max(np.abs(res - ov * want)) > 1e-7:
-            # decode per input: the amplitude found at the expected place
+            # per input: the amplitude found at the expected place (a_c are pairwise distinct)
             got = np.conj(E).T @ res
-            c = int(np.argmax(np.abs(np.abs(got) - amp)))
-            return bad(f"{sigbase}:state-mismatch", {"overlap": float(abs(ov)), "amp_at_expected": float(abs(got[c]))},
-                       {"overlap": 1.0, "amp_at_expected": float(amp[c])}, input=dom[c], expected_output=exp_vals[c], **extra)
+            ph = ov / abs(ov) if abs(ov) > 1e-6 else 1.0
+            badc = np.nonzero(np.abs(got - ph * amp) > 1e-7)[0]
+            if badc.size == 0:
+                return bad(f"{sigbase}:state-mismatch", {"overlap": float(abs(ov))}, {"overlap": 1.0}, **extra)
+            c = int(badc[0])
+            kind = "state-mismatch" + _classes(Tm, a, dom, badc)
+            return bad(f"{sigbase}:{kind}", {"overlap": float(abs(ov)), "amp_at_expected": float(abs(got[c]))},
+                       {"overlap": 1.0, "amp_at_expected": float(amp[c])}, input=dom[c], expected_output=exp_vals[c],
+                       n_bad_inputs=int(badc.size), n_inputs=len(dom), **extra)
         return ok(outcome=[t, variant, "device", fp], nontrivial=nontrivial)
 
     if route.startswith("mcm:"):
@@ -807,7 +840,7 @@ def check(spec):
     extra["gates"] = sim.gates
     if leaked > 1e-12:
         return bad(f"{sigbase}:work-not-restored", f"dynamic work wires hold weight {leaked:.3g} outside |0>", "|0>", **extra)
-    v = _judge(sigbase, Tm, regs, dom, exp_vals, E, O, extra)
+    v = _judge(sigbase, Tm, a, regs, dom, exp_vals, E, O, extra)
     if v:
         return v
     ph = X.overlaps(E, O)[0]
